@@ -8,7 +8,7 @@ EXPLANATION = ('Guard live-range dataflow + call-graph reachability + dominance/
                'should_retry() under the SAME write-lock acquisition, the retry edge re-acquires and first refreshes the local '
                'snapshot; (L2) no read()/write()/borrow_mut() on the same object (or call into code acquiring the same lock type) '
                'while a guard is alive; (L1) no rayon entry reachable while the thread-local RefCell borrows or the write guard are '
-               'alive (a stolen sibling task would double-borrow / self-deadlock: schedule-dependent). NOT decided: completeness '
+               'alive (a stolen sibling task would double-borrow / self-deadlock: schedule-dependent). (L5) every column visited by init/traverse gets a non-None status, which the conflict test of update_diff presupposes. NOT decided: full completeness '
                'of update_diff\'s conflict test (acyclicity of the result), pivot-condition values, panics from top_sort.')
 TRUSTED = ['rustc MIR (drop elaboration makes guard lifetimes explicit)', 'call graph over-approximates: CHA for trait calls, closures invocable by the callee they are passed to',
            'external crates other than rayon do not spawn rayon work', 'lock identity by receiver place / lock type']
@@ -26,6 +26,7 @@ def run(ctx, rep):
     summ = e5_locks.Summaries(facts)
     e5_locks.check_guards(facts, rep, summ, in_scope, 'pivot', 7)
     e5_locks.check_commit_protocol(facts, rep)
+    e5_locks.check_marking(facts, rep)
     sites = [s for s in summ.rayon_sites if s[0].startswith('yui_matrix::sparse::pivot')]
     rep.floor('E5 rayon entry sites in sparse::pivot', len(sites), 2)
     rep.inventory['L4 rayon entry sites (workspace)'] = sorted({'%s @ %s' % (s[0], s[1]) for s in summ.rayon_sites})
